@@ -260,7 +260,12 @@ def run(rep, tier, seed):
     rep.add_tlc(g1, "C:Gen_CondHeap(exhaustive depth 2)")
     pool, behs = split_gen(g1)
     replay_all(rep, behs, pool["docs"], pool["npool"], "exhaustive")
-    nex = len(behs)
+    # deterministic coverage of the map-or-list part and of part.filter (the random walk below may miss them)
+    g3 = tlc.generate("Gen_CondHeap", "Gen_CondHeap_mol.cfg", timeout=1800)
+    rep.add_tlc(g3, "C:Gen_CondHeap(exhaustive MkMol/PartFilter depth 2)")
+    pool3, behs3 = split_gen(g3)
+    replay_all(rep, behs3, pool3["docs"], pool3["npool"], "exhaustive-mol")
+    nex = len(behs) + len(behs3)
     g2 = tlc.generate("Gen_CondHeap", "Gen_CondHeap_sim.cfg" if tier == "quick" else "Gen_CondHeap_sim7.cfg",
                       simulate=True, extra=["-depth", "9", "-seed", str(seed % 100000)], timeout=1800)
     rep.add_tlc(g2, "C:Gen_CondHeap(simulate)")
@@ -272,16 +277,16 @@ def run(rep, tier, seed):
             seen.add(k)
             uniq.append(b)
     replay_all(rep, uniq, pool2["docs"], pool2["npool"], "simulate")
-    acts = {h["step"]["act"] for b in uniq for h in b["hist"]}
+    acts = {h["step"]["act"] for b in uniq + behs3 for h in b["hist"]}
     if not {"Combine", "MkPart", "MkMol", "PartFilter"} <= acts:
         raise tlc.MachineryError(f"vacuity: generated behaviours never take {{'Combine','MkPart','MkMol','PartFilter'}} - {acts}")
-    outs = {h["step"]["out"] for b in behs + uniq for h in b["hist"]}
+    outs = {h["step"]["out"] for b in behs + behs3 + uniq for h in b["hist"]}
     if "raised:TypeError" not in outs:
         raise tlc.MachineryError("vacuity: no generated behaviour contains the key/index refusal")
     rep.extra["actions_taken"] = sorted(acts)
     for b in (behs[:1] + uniq[:1]):
         rep.sample({"behaviour": [h["step"] for h in b["hist"]]})
-    for b in behs + uniq:
+    for b in behs + behs3 + uniq:
         rep.note_case(repr(b["hist"]), nontrivial=True)
 
     # ---- leg B
